@@ -95,6 +95,15 @@ func addNamespace(ns node.Namespace, cursor *InMemory, pos int) int {
 		}
 	}
 
+	// An empty namespace name (xmlns="") removes the binding instead of creating one.
+	if ns.NamespaceValue() == "" {
+		if toReplace >= 0 {
+			cursor.namespaces = append(cursor.namespaces[:toReplace:toReplace], cursor.namespaces[toReplace+1:]...)
+		}
+
+		return pos
+	}
+
 	if toReplace < 0 {
 		pos++
 		cursor.namespaces = append(cursor.namespaces, createNonElement(ns, cursor, pos))
